@@ -18,6 +18,7 @@ InheritableIteration) over an arbitrary class tree
   through `_parent`, `selectRow` the rewrite of `cls.select(...)` onto the root class with the
   `childName` filter and the joins `InheritableSelectResults` adds, `selectByRow` the `selectBy`
   path (source class = the subclass itself, joined upwards).
+* `deleteMany` / `deleteBy` mirror the overrides that destroy every selected object.
 * Only successful operations plus NotFound / AttributeError are modelled (failure atomicity of a
   child INSERT is property C06).
 -/
@@ -295,12 +296,23 @@ def selectByRow (T : Tree) (db : DB) (c : Nat) (kvs : List (Nat × Nat × Val)) 
 
 /-! ## class-level bulk deletes -/
 
-/-- `cls.deleteMany(where)` / `cls.deleteBy(**kw)`: `SQLObject`'s classmethods, which
-    `InheritableSQLObject` does not override: one `DELETE FROM <table of cls> WHERE …` (the clause
-    can only mention that table's columns: a DELETE has no join).  Not part of `Op`: see
-    `C15_bulk_delete_keeps_no_orphan_full_FALSE`. -/
-def bulkDelete (db : DB) (c : Nat) (f : Filter) : DB :=
-  fun c' j => if c' = c ∧ f.eval db j = true then none else db c' j
+/-- `cls.deleteMany(where)` / `cls.deleteBy(**kw)` as overridden by `InheritableSQLObject`:
+    `for obj in list(cls.select(where)): obj.destroySelf()` — every selected id is destroyed as the
+    most-derived instance the select returned (a destroy only touches rows of its own id, so the
+    result is given per id).  Without the override (`Extracted.bulkDeleteDestroys = false`) it is
+    `SQLObject`'s single raw `DELETE FROM <table of cls> WHERE …`. -/
+def deleteSel (T : Tree) (db : DB) (c : Nat) (sel : Nat → Option Res) : DB :=
+  if Extracted.bulkDeleteDestroys then
+    fun c' j => match sel j with
+      | some (.ok m) => destroyInst T db m j c' j
+      | _ => db c' j
+  else fun c' j => if c' = c ∧ (sel j).isSome then none else db c' j
+
+def deleteMany (T : Tree) (db : DB) (c : Nat) (f : Filter) : DB :=
+  deleteSel T db c (selectRow T db c f)
+
+def deleteBy (T : Tree) (db : DB) (c : Nat) (kvs : List (Nat × Nat × Val)) : DB :=
+  deleteSel T db c (selectByRow T db c kvs)
 
 /-! ## histories -/
 
@@ -309,12 +321,16 @@ inductive Op where
   | write (e : Nat) (i : Nat) (a : Nat) (k : Nat) (v : Val)
   | set (e : Nat) (i : Nat) (kvs : List (Nat × Nat × Val))
   | destroy (e : Nat) (i : Nat)
+  | deleteMany (c : Nat) (f : Filter)
+  | deleteBy (c : Nat) (kvs : List (Nat × Nat × Val))
 
 def step (T : Tree) (db : DB) : Op → DB × Out
   | .create c id vals => create T db c id vals
   | .write e i a k v => writeVia T db e i a k v
   | .set e i kvs => setVia T db e i kvs
   | .destroy e i => destroyVia T db e i
+  | .deleteMany c f => (deleteMany T db c f, .ok)
+  | .deleteBy c kvs => (deleteBy T db c kvs, .ok)
 
 def run (T : Tree) (ops : List Op) (db : DB) : DB :=
   ops.foldl (fun d op => (step T d op).1) db
